@@ -240,7 +240,13 @@ func (self *BinaryConv) doRecurse(ctx context.Context, desc *thrift.TypeDescript
 			// JSON has no representation for NaN and Infinity (the encoder would emit nothing)
 			return wrapError(meta.ErrConvert, fmt.Sprintf("unsupported non-finite double value %v", v), nil)
 		}
-		*out = json.EncodeFloat64(*out, float64(v))
+		if v == 0 && math.Signbit(v) {
+			// the float encoder prints negative zero as the integer literal -0, which JSON->Thrift
+			// converters (including conv/j2t) read back as integer 0 and turn into +0.0
+			*out = append(*out, "-0.0"...)
+		} else {
+			*out = json.EncodeFloat64(*out, float64(v))
+		}
 	case thrift.STRING:
 		if desc.IsBinary() && !self.opts.NoBase64Binary {
 			v, e := p.ReadBinary(false)
